@@ -88,6 +88,10 @@ type resolvedInfo struct {
 	resolvedDynamicRef *Schema
 	// The anchor to look up on the stack when the dynamic ref acts dynamically.
 	dynamicRefAnchor string
+	// The schema that the dynamic ref initially (lexically) resolves to when it acts
+	// dynamically. It is the referent if no schema resource in the dynamic scope has
+	// the dynamic anchor, which can happen when the ref names another resource.
+	dynamicRefInitial *Schema
 
 	// The following fields are independent of arguments to Schema.Resolved,
 	// so they could live on the Schema. We put them here for simplicity.
@@ -510,6 +514,7 @@ func (r *resolver) resolveRefs(rs *Resolved) error {
 				// The dynamic ref's fragment points to a dynamic anchor.
 				// We must resolve the fragment at validation time.
 				info.dynamicRefAnchor = frag
+				info.dynamicRefInitial = refSchema
 			} else {
 				// There is no dynamic anchor in the lexically referenced schema,
 				// so the dynamic ref behaves like a lexical ref.
